@@ -74,7 +74,8 @@ impl WorkerState {
     pub(crate) fn remaining_time(&self) -> Option<Duration> {
         if let Some(limit) = self.configuration.time_limit {
             let life_time = Instant::now() - self.start_time;
-            Some(limit - life_time)
+            // The worker may be (shortly) alive after its time limit is reached
+            Some(limit.saturating_sub(life_time))
         } else {
             None
         }
